@@ -1236,7 +1236,10 @@ int EGLPNUM_TYPENAME_ILLwrite_mps (
 		EGLPNUM_TYPENAME_ILLprint_report (lp, "RANGES\n");
 		for (i = 0; i < lp->nrows; i++)
 		{
-			if ((lprows->rowcnt[i] != 0) && EGLPNUM_TYPENAME_EGlpNumIsNeqqZero (lp->rangeval[i]))
+			/* a range row keeps its RANGES record even when the range is 0,
+			 * otherwise it reads back as a plain G row */
+			if ((lprows->rowcnt[i] != 0) &&
+					(EGLPNUM_TYPENAME_EGlpNumIsNeqqZero (lp->rangeval[i]) || lp->sense[i] == 'R'))
 			{
 				str = EGLPNUM_TYPENAME_EGlpNumGetStr(lp->rangeval[i]);
 				EGLPNUM_TYPENAME_ILLprint_report (lp, " RANGE    %s    %s\n", rownames[i], str);
